@@ -19,6 +19,8 @@ CONSTANTS
   NsCachesInit = TRUE
   EmbNullChecked = TRUE
   OverflowWrapped = FALSE
+  InstOffsetAll = TRUE
+  OpenPrecheck = TRUE
 INVARIANT TypeOK
 INVARIANT ImplRefinesReq
 INVARIANT PositionFileOK
